@@ -21,14 +21,19 @@ Opts(kind) ==
     [] kind = "adamw" -> {[decay |-> TRUE, momentum |-> FALSE, centered |-> FALSE]}
     [] kind = "rmsprop" -> {[decay |-> d, momentum |-> m, centered |-> c] : d \in BOOLEAN, m \in BOOLEAN, c \in BOOLEAN}
 
-\* hyper-parameter values passed to create: explicit ones, or zeros (to be replaced by the defaults)
-HP(kind, zeros) ==
-  LET v(name, n, d) == IF zeros /\ name \in DOMAIN Defaults(kind) THEN <<0, 1>> ELSE <<n, d>> IN
+\* hyper-parameter values passed to create: explicit ones, zeros (to be replaced by the defaults), or explicit ones with a
+\* TINY but non-zero learning rate / epsilon (2^-30, far below the single-precision machine epsilon): a tiny value is a value,
+\* only an exact zero means "use the default"
+Styles == {"explicit", "zeros", "tinylr", "tinyeps"}
+HP(kind, style) ==
+  LET v(name, n, d) == IF style = "zeros" /\ name \in DOMAIN Defaults(kind) THEN <<0, 1>>
+                       ELSE IF (style = "tinylr" /\ name = "lr") \/ (style = "tinyeps" /\ name = "eps") THEN <<1, 1073741824>>
+                       ELSE <<n, d>> IN
   [lr |-> v("lr", 1, 16), decay |-> <<1, 8>>, momentum |-> v("momentum", 3, 4), dampening |-> <<1, 4>>,
    beta1 |-> v("beta1", 7, 8), beta2 |-> v("beta2", 15, 16), eps |-> v("eps", 1, 1024), alpha |-> v("alpha", 1, 2)]
 EffectiveHP(kind, hp) == [name \in DOMAIN hp |-> Effective(kind, name, hp[name])]
 
-Configs == {[kind |-> k, o |-> o, zeros |-> z] : k \in Kinds, o \in UNION {Opts(kk) : kk \in Kinds}, z \in BOOLEAN}
+Configs == {[kind |-> k, o |-> o, zeros |-> z] : k \in Kinds, o \in UNION {Opts(kk) : kk \in Kinds}, z \in Styles}
 ValidConfigs == {c \in Configs : c.o \in Opts(c.kind)}
 
 OwnLeaves(s) == {"w" \o ToString(s), "g" \o ToString(s)}
